@@ -201,3 +201,55 @@ func Harness_C07_contexts_terminate() {
 		verifAssert("context-ends-at-the-node", frames[len(frames)-1] == start)
 	}
 }
+
+// Harness_C07_access_paths_terminate: enumerating the access paths of a type terminates (and stays bounded) on
+// recursive types, whichever way the recursion goes through: an embedded pointer to itself, a named field, a slice,
+// an array, a map, or a cycle through a second type.
+func Harness_C07_access_paths_terminate() {
+	pkg := types.NewPackage("example.com/p", "p")
+	intT := types.Type(types.Typ[types.Int])
+	elem := types.NewNamed(types.NewTypeName(token.NoPos, pkg, "Elem", nil), nil, nil)
+	other := types.NewNamed(types.NewTypeName(token.NoPos, pkg, "Other", nil), nil, nil)
+	var selfRef types.Type
+	switch verifPick("recursion-through", 0, 5) {
+	case 0:
+		selfRef = types.NewPointer(elem)
+	case 1:
+		selfRef = types.NewSlice(elem)
+	case 2:
+		selfRef = types.NewMap(types.Typ[types.String], types.NewPointer(elem))
+	case 3:
+		selfRef = types.NewArray(types.NewPointer(elem), 2)
+	case 4:
+		selfRef = types.NewPointer(other) // Elem -> *Other -> *Elem
+	default:
+		selfRef = types.NewPointer(types.NewPointer(elem))
+	}
+	embedded := verifBool("embedded-field")
+	name := "next"
+	if embedded {
+		name = "Elem"
+		if _, isPtr := selfRef.(*types.Pointer); !isPtr {
+			embedded = false // only (pointers to) named types can be embedded
+			name = "next"
+		}
+	}
+	elem.SetUnderlying(types.NewStruct([]*types.Var{
+		types.NewField(token.NoPos, pkg, name, selfRef, embedded),
+		types.NewField(token.NoPos, pkg, "value", intT, false)}, nil))
+	other.SetUnderlying(types.NewStruct([]*types.Var{
+		types.NewField(token.NoPos, pkg, "Elem", types.NewPointer(elem), verifBool("second-type-embeds")),
+		types.NewField(token.NoPos, pkg, "n", intT, false)}, nil))
+	var t types.Type = elem
+	if verifBool("start-from-pointer") {
+		t = types.NewPointer(elem)
+	}
+	verifTerminatesWithin("access-path-enumeration-terminates", 3000000)
+	paths := AccessPathsOfType(t)
+	verifTerminated()
+	verifReach("paths-enumerated")
+	verifAssert("access-paths-are-bounded", len(paths) <= 64)
+	for _, p := range paths {
+		verifAssert("access-path-length-is-bounded", accessPathLen(p) <= maxAccessPathLength+2)
+	}
+}
